@@ -381,7 +381,7 @@ class ContractSet:
         if typ.startswith("new:"):
             # a freshly allocated instance before __init__ ran: no instance attributes yet
             cls = I.class_by_qual(typ[4:])
-            ref = VRef(P.alloc(HObj("inst", cls, {}, meta={"name": name, "input": bool(self.inputs_phase), "init_fields": {}})))
+            ref = VRef(P.alloc(HObj("inst", cls, {}, meta={"name": name, "input": bool(self.inputs_phase), "init_fields": {}, "own": set()})))
             return ref
         if typ.startswith("sub:"):
             # any class of the repository that is the named class or a subclass of it (closed world)
@@ -1072,6 +1072,10 @@ class ContractSet:
                 elif c.rtype:
                     result = self.make(I, c.rtype, "ret_" + c.target.split(".")[-1])
                 else:
+                    if any(isinstance(x_, ast.Name) and x_.id == "result" for src_ in c.ensures.values() for x_ in ast.walk(c.expr(src_))):
+                        # the clauses speak about a result but the contract gives call sites no value for it: assuming them with None
+                        # would silently cut every path on which the real result is not None
+                        raise Unsupported(f"contract of {c.target} constrains `result` but declares neither returns= nor rtype= (no value for its call sites)")
                     result = NONE
                 sfr.locals["result"] = result
                 for lv, src in c.assigns.items():
@@ -1531,7 +1535,11 @@ class ContractSet:
                 nv = self.fresh_like(I, cur, lv)
             else:
                 nv = self.make(I, t, lv)
-            I.setattr_(base, tgt.attr, nv)
+            I.in_havoc = True
+            try:
+                I.setattr_(base, tgt.attr, nv)
+            finally:
+                I.in_havoc = False
             hav_lvs.append((base, tgt.attr))
         hav_sizes = []
         for (b_, a_) in hav_lvs:
